@@ -54,6 +54,7 @@ import PS.Proofs.Enum.HSOrderCheck
 import PS.Proofs.Enum.HSSorted
 import PS.Proofs.Enum.HSPrologueTotal
 import PS.Proofs.Enum.GInst
+import PS.Proofs.Enum.UHeaps
 namespace PS.C03HS
 open PS PS.G PS.HS
 
@@ -425,5 +426,66 @@ example : ∀ k g' out b, take bE 50 k (Gen.new oG) [] = some (g', out, b) →
 example : (take bE 50 10 (Gen.new oG) []).map (fun r => (r.2.1.map (bucketOf bE), r.2.2)) =
     some ([[0, 1, 0], [0, 1, 2], [1, 1, 1], [1, 1, 1], [2, 1, 0]], true) := by decide +kernel
 end Generic
+
+/-! ## unambiguous machine -/
+section UMachine
+open PS.UHS
+variable {U π : Type} [DecidableEq U]
+
+/-- **every heap of the unambiguous-grammar machine is valid in every reachable state**:
+    `UHS.HInv E s` — every `heaps[nt]` and the start heap `_start_heap` satisfy heapq's invariant.
+    It holds for the fresh enumerator and every `next(generator)` keeps it: any grammar, any filter,
+    any strict weak order of priorities (the code after fix 7721229, `kway = true`) -/
+theorem C03_HS_U_heaps_valid (E : UHS.Env U π) (hk : E.kway = true) (w : Heapq.WeakOrder E.ops.lt) (fuel : Nat) :
+    UHS.HInv E (UHS.St.empty E.G) ∧
+    ∀ (k : Nat) (s s' : UHS.St U π) (r : Option Prog), UHS.HInv E s → UHS.next E fuel k s = some (s', r) → UHS.HInv E s' :=
+  ⟨hinv_empty E, fun k _ _ _ hs h => hs.next hk w k h⟩
+
+/-- `query(S, program)` keeps the heaps valid -/
+theorem C03_HS_U_query_heaps (E : UHS.Env U π) (hk : E.kway = true) (w : Heapq.WeakOrder E.ops.lt) (n : Nat)
+    (s s' : UHS.St U π) (nt : UHS.UNT U) (p r : Option Prog) (hs : UHS.HInv E s)
+    (h : UHS.query E n s nt p = some (s', r)) : UHS.HInv E s' :=
+  big_hinv E hk w (big_of_query E h) hs
+
+/-- hence every pop made by `query` returns an element of minimal priority of its heap, and the pop
+    of the start heap in `start_query` returns an entry of minimal adjusted priority (heap search: of
+    maximal probability `start weight × probability from the start symbol`) -/
+theorem C03_HS_U_pop_max (E : UHS.Env U π) (w : Heapq.WeakOrder E.ops.lt) (s : UHS.St U π) (hs : UHS.HInv E s) :
+    (∀ (nt : UHS.UNT U) (e : π × Prog) (h' : List (π × Prog)),
+      Heapq.pop (UHS.ltE E.ops) (s.heapOf nt) = some (e, h') → ∀ y ∈ s.heapOf nt, E.ops.lt y.1 e.1 = false) ∧
+    (∀ (e : π × Prog × UHS.UNT U) (h' : List (π × Prog × UHS.UNT U)),
+      Heapq.pop (UHS.ltS E.ops) s.startHeap = some (e, h') → ∀ y ∈ s.startHeap, E.ops.lt y.1 e.1 = false) :=
+  ⟨fun nt _ _ hp => (Heapq.pop_isHeap (UHS.ltE_weakOrder E.ops w) _ _ _ (hs.1 nt) hp).2,
+   fun _ _ hp => (Heapq.pop_isHeap (UHS.ltS_weakOrder E.ops w) _ _ _ hs.2 hp).2⟩
+
+/-! non-vacuity: the three-start grammar of finding C02-F2, heap search and bucket search -/
+def uT : Ty := .base "int"
+def u0 : UHS.UNT Nat := (uT, 0)
+def u1 : UHS.UNT Nat := (uT, 1)
+def u2 : UHS.UNT Nat := (uT, 2)
+def uPlus : Sym := Sym.prim "+" (.arrow uT (.arrow uT uT))
+def uOne : Sym := Sym.prim "1" uT
+def uV0 : Sym := Sym.var 0 uT
+/-- `S0 → 1 | var0`, `S1 → + S0 S0`, `S2 → + S0 S1 | + S1 S0`; three start symbols; 22 programs -/
+def uG : UG Nat :=
+  { starts := [(u2, 1/2), (u0, 1/4), (u1, 1/4)],
+    rules := [(u1, [(uPlus, [([u0, u0], 1)])]), (u0, [(uOne, [([], 1/4)]), (uV0, [([], 3/4)])]),
+              (u2, [(uPlus, [([u0, u1], 3/5), ([u1, u0], 2/5)])])] }
+def uE : UHS.Env Nat Rat := { G := uG, ops := UHS.probOps 0, filter := fun _ => true, kway := true }
+
+theorem uE_weak : Heapq.WeakOrder uE.ops.lt := by
+  constructor
+  · intro a b h
+    simp only [uE, UHS.probOps, decide_eq_true_eq, decide_eq_false_iff_not, Rat.not_lt] at h ⊢
+    exact Rat.le_of_lt h
+  · intro a b c h1 h2
+    simp only [uE, UHS.probOps, decide_eq_false_iff_not, Rat.not_lt] at h1 h2 ⊢
+    exact Rat.le_trans h2 h1
+
+example : ∀ k s s' r, UHS.HInv uE s → UHS.next uE 60 k s = some (s', r) → UHS.HInv uE s' :=
+  (C03_HS_U_heaps_valid uE rfl uE_weak 60).2
+example : (UHS.take uE 60 30 (UHS.St.empty uG) []).map (fun r => (r.2.1.length, r.2.2)) = some (22, true) := by
+  decide +kernel
+end UMachine
 
 end PS.C03HS
